@@ -273,6 +273,28 @@ type c17bCase struct {
 	Values [][]byte `json:"values"`
 	Burst  bool     `json:"burst,omitempty"` // publish all values at once, so that the partition takes them as one batch
 	Pause  int      `json:"pause,omitempty"` // k > 0: the stream is paused before value k%n is published (the publish resumes it)
+	// how the stream comes to be encrypted: false = the create request asks
+	// for it, true = the server-wide default streams.encryption does (a second
+	// server, the request says nothing)
+	ByDefault bool `json:"bydefault,omitempty"`
+}
+
+var (
+	l3EncOnce sync.Once
+	l3Enc     *vfL3
+	l3EncErr  error
+)
+
+// l3EncSetup: a started server whose configuration encrypts every stream.
+func l3EncSetup() (*vfL3, error) {
+	l3EncOnce.Do(func() {
+		os.Setenv("LIFTBRIDGE_ENCRYPTION_KEY", l3MasterKey)
+		l3Enc, l3EncErr = newVFL3("l3enc", func(c *Config) {
+			c.BatchMaxTime = 0
+			c.Streams.Encryption = true
+		})
+	})
+	return l3Enc, l3EncErr
 }
 
 func genC17b(t *rapid.T) c17bCase {
@@ -300,18 +322,27 @@ func genC17b(t *rapid.T) c17bCase {
 	if rapid.IntRange(0, 2).Draw(t, "pause?") == 0 {
 		c.Pause = rapid.IntRange(1, 24).Draw(t, "pause")
 	}
+	c.ByDefault = rapid.IntRange(0, 2).Draw(t, "bydefault") == 0
 	return c
 }
 
 func runC17b(c c17bCase, o *vfutil.Obs) *vfutil.Failure {
 	l, err := l3Setup()
+	if c.ByDefault {
+		l, err = l3EncSetup()
+		o.Label("encrypted-by-server-default")
+	}
 	if err != nil {
 		return vfutil.Failf("harness/setup", "%v", err)
 	}
 	name := l3Name("enc")
 	a := l.s.api
+	req := &client.CreateStreamRequest{Name: name, Subject: name, Partitions: 1}
+	if !c.ByDefault {
+		req.Encryption = &client.NullableBool{Value: true}
+	}
 	ctx, cancel := ctxFor("", 20*time.Second)
-	_, err = a.CreateStream(ctx, &client.CreateStreamRequest{Name: name, Subject: name, Partitions: 1, Encryption: &client.NullableBool{Value: true}})
+	_, err = a.CreateStream(ctx, req)
 	cancel()
 	if err != nil {
 		return vfutil.Failf("harness/create", "%v", err)
@@ -455,5 +486,10 @@ func clipB(b []byte) []byte {
 
 func TestVerifC17b(t *testing.T) {
 	defer l3Close()
+	defer func() {
+		if l3Enc != nil {
+			l3Enc.close()
+		}
+	}()
 	vfutil.Run(t, vfutil.Spec[c17bCase]{ID: "C17", Gen: genC17b, Run: runC17b, Journal: true})
 }
